@@ -192,24 +192,24 @@ func genItems(r *Rng, count int, level int, ctr *int) []Item {
 
 // buildWeights is the op mix of a build script; redrawn per run (swarm).
 type buildMix struct {
-	headers, rowItems, newRow, rowAdd, attach, appendNew, separator, sepAdd, scramble int
-	maxCells                                                                          int
-	wide                                                                              bool
+	headers, rowItems, newRow, rowAdd, attach, appendNew, separator, sepAdd, scramble, dump int
+	maxCells                                                                                int
+	wide                                                                                    bool
 }
 
 func drawBuildMix(r *Rng) buildMix {
 	w := func() int { return r.Intn(6) }
-	m := buildMix{headers: 1 + r.Intn(3), rowItems: 1 + w(), newRow: w(), rowAdd: w(), attach: w(), appendNew: w(), separator: w(), sepAdd: r.Intn(2), scramble: r.Intn(2)}
+	m := buildMix{headers: 1 + r.Intn(3), rowItems: 1 + w(), newRow: w(), rowAdd: w(), attach: w(), appendNew: w(), separator: w(), sepAdd: r.Intn(2), scramble: r.Intn(2), dump: r.Pick([]int{3, 1})}
 	m.maxCells = r.Range(0, 5)
 	m.wide = r.Chance(1, 8)
 	return m
 }
 
 func (m buildMix) weights() []int {
-	return []int{m.headers, m.rowItems, m.newRow, m.rowAdd, m.attach, m.appendNew, m.separator, m.sepAdd, m.scramble}
+	return []int{m.headers, m.rowItems, m.newRow, m.rowAdd, m.attach, m.appendNew, m.separator, m.sepAdd, m.scramble, m.dump}
 }
 
-var buildOps = []string{"headers", "rowItems", "newRow", "rowAdd", "attach", "appendNewRow", "separator", "sepAdd", "scramble"}
+var buildOps = []string{"headers", "rowItems", "newRow", "rowAdd", "attach", "appendNewRow", "separator", "sepAdd", "scramble", "dump"}
 
 func genBuildStep(r *Rng, m buildMix, level int, ctr *int) Step {
 	op := buildOps[r.Pick(m.weights())]
